@@ -401,6 +401,12 @@ def run(ctx):
                 v = values.strip_payload(v)
                 if is_call(v) and callee_name(v[1]) in values.VIEW_NAMES + ("to_vec", "to_owned", "into", "from", "clone", "as_slice", "deref", "as_ref") and v[2]:
                     v = W.expand(v[2][0])
+                elif is_call(v) and callee_name(v[1]) in ("ok_or", "ok_or_else", "unwrap", "expect") and v[2]:
+                    v = W.expand(v[2][0])
+                elif is_call(v) and callee_name(v[1]) == "get" and "slice" in v[1] and len(v[2]) == 2:
+                    # bytes.get(a..b): the same bytes as bytes[a..b] whenever it is Some
+                    v = ("index", W.expand(v[2][0]), W.expand(v[2][1]))
+                    break
                 elif isinstance(v, tuple) and v and v[0] == "obj":
                     ini = W.obj_init(v)
                     if ini is None:
